@@ -465,7 +465,7 @@ pub fn owns(prop: &str, v: &Violation) -> bool {
     // functional disagreement with the reference model, attributed by the kind of the failing operation
     let functional = starts(c, "ret/") || starts(c, "contents/") || starts(c, "len/") || starts(c, "sweep/") || starts(c, "panic/");
     match prop {
-        "C01" => (functional || starts(c, "entry/") || starts(c, "retain/visits")) && MAP_CORE_OPS.contains(&k),
+        "C01" => (functional || starts(c, "entry/") || starts(c, "retain/visits") || starts(c, "inv/I6")) && MAP_CORE_OPS.contains(&k),
         "C02" => safety || starts(c, "panic/") || starts(c, "alloc/size-mismatch") || starts(c, "alloc/over-reservation"),
         // an element that is still stored after it was dropped, or that vanished without being dropped, while a
         // callback panic unwinds is the exactly-once statement under unwinding
@@ -473,11 +473,11 @@ pub fn owns(prop: &str, v: &Violation) -> bool {
         "C04" => starts(c, "postpanic/") || safety || starts(c, "alloc/") || starts(c, "ledger/"),
         "C05" => safety || starts(c, "diverge/") || starts(c, "byz/") || starts(c, "ledger/") || starts(c, "alloc/") || starts(c, "getmany/alias") || starts(c, "panic/"),
         "C06" => starts(c, "inv/I6") || functional || starts(c, "entry/") || starts(c, "iterhash/") || starts(c, "reinsert/") || starts(c, "retain/") || starts(c, "extract/") || starts(c, "drain/yield") || starts(c, "getmany/"),
-        "C07" => functional || starts(c, "setalg/") || starts(c, "set/") || starts(c, "entry/"),
+        "C07" => starts(c, "inv/I6") || functional || starts(c, "setalg/") || starts(c, "set/") || starts(c, "entry/"),
         "C08" => starts(c, "inv/I6") || starts(c, "cap/") || starts(c, "drain/allocation") || starts(c, "alloc/size-mismatch"),
         "C09" => starts(c, "iter/") || starts(c, "iterlen/") || (functional && ["Iter", "IntoIter", "SetIter", "TIter"].contains(&k)),
         "C10" => (starts(c, "inv/I6") && ["Retain", "ExtractIf", "Drain"].contains(&k)) || starts(c, "retain/") || starts(c, "extract/") || starts(c, "drain/") || (functional && ["Retain", "ExtractIf", "Drain"].contains(&k)),
-        "C11" => starts(c, "clone/") || starts(c, "eq/") || (["CloneTo", "CloneFrom"].contains(&k) && starts(c, "ledger/")) || (functional && ["CloneTo", "CloneFrom", "EqSlots"].contains(&k)),
+        "C11" => starts(c, "clone/") || starts(c, "eq/") || (["CloneTo", "CloneFrom"].contains(&k) && (starts(c, "ledger/") || starts(c, "inv/"))) || (functional && ["CloneTo", "CloneFrom", "EqSlots"].contains(&k)),
         "C12" => starts(c, "tryreserve/") || starts(c, "alloc/invalid-layout") || (k == "TryReserve" && starts(c, "alloc/over-reservation")) || (k == "TryReserve" && (functional || starts(c, "ledger/") || starts(c, "alloc/") || starts(c, "inv/"))),
         "C13" => starts(c, "churn/") || starts(c, "inv/I4") || starts(c, "inv/I6") || starts(c, "hang/") || starts(c, "diverge/"),
         "C14" => starts(c, "entry/") || (k == "Entry" && (functional || starts(c, "inv/"))),
